@@ -242,77 +242,136 @@ func enumC17(tier string, part, parts, skip int, deadline time.Time, note func(i
 		// Sec-WebSocket-* headers only exist on upgrade responses: judged by the handshake cases below
 		return k == "Content-Type" || k == "Access-Control-Allow-Origin" || k == "Access-Control-Allow-Credentials"
 	}
-	for _, method := range []string{"GET", "POST"} {
-		for _, auth := range []bool{false, true} {
-			method, auth := method, auth
-			var cfg func(*server.Config)
-			if auth {
-				cfg = withAuth
+	// all values of a header whatever the letter case of its key in the map
+	// (a recorder keeps "content-type" and "Content-Type" apart, the wire does not)
+	hdrVals := func(h http.Header, name string) []string {
+		var keys []string
+		for k := range h {
+			if strings.EqualFold(k, name) {
+				keys = append(keys, k)
 			}
-			rq := mc.HTTPReq{Method: "GET", URL: "/api/test/m"}
-			if method == "POST" {
-				rq = mc.HTTPReq{Method: "POST", URL: "/api/test/m/act", Body: `{}`}
-			}
-			var base *mc.HTTPCall
-			for _, name := range append([]string{""}, hdrNames...) {
-				for _, multi := range []bool{false, true} {
-					name, multi := name, multi
-					if name == "" && multi {
-						continue
-					}
-					desc := fmt.Sprintf("meta-header %s auth=%v %q multi=%v", method, auth, name, multi)
-					// the base run (no meta) is needed by every part
-					if name == "" {
-						base, _ = runHTTP(cfg, rq, nil)
-						res.Evaluations--
-						res.Distinct--
-						continue
-					}
-					if !active(desc) {
-						continue
-					}
-					vals := `["evil"]`
-					if multi {
-						vals = `["evil","evil2"]`
-					}
-					h, _ := runHTTP(cfg, rq, func(subj string) string {
-						meta := fmt.Sprintf(`"meta":{"header":{%q:%s,"Set-Cookie":["c=%s"]}}`, name, vals, subj[:2])
+		}
+		sort.Strings(keys)
+		var out []string
+		for _, k := range keys {
+			out = append(out, h[k]...)
+		}
+		return out
+	}
+	// mode: which answers carry the meta and whether they are results or errors
+	//   ok      - every answer is a result with the meta
+	//   err     - the last answer of the chain (call for POST, access for GET) is an error with the meta
+	//   autherr - the header authentication answer is an error with the meta (auth only)
+	for _, mode := range []string{"ok", "err", "autherr"} {
+		for _, method := range []string{"GET", "POST"} {
+			for _, auth := range []bool{false, true} {
+				mode, method, auth := mode, method, auth
+				if mode == "autherr" && !auth {
+					continue
+				}
+				var cfg func(*server.Config)
+				if auth {
+					cfg = withAuth
+				}
+				rq := mc.HTTPReq{Method: "GET", URL: "/api/test/m"}
+				if method == "POST" {
+					rq = mc.HTTPReq{Method: "POST", URL: "/api/test/m/act", Body: `{}`}
+				}
+				answer := func(name, vals string) func(subj string) string {
+					return func(subj string) string {
+						meta := ""
+						if name != "" {
+							meta = fmt.Sprintf(`,"meta":{"header":{%q:%s,"Set-Cookie":["c=%s"]}}`, name, vals, subj[:2])
+						}
+						errBody := `{"error":{"code":"system.invalidParams","message":"no"}` + meta + `}`
+						last := "access."
+						if method == "POST" {
+							last = "call."
+						}
 						switch {
-						case strings.HasPrefix(subj, "access."):
-							return `{"result":{"get":true,"call":"*"},` + meta + `}`
-						case strings.HasPrefix(subj, "call."):
-							return `{"result":{"ok":true},` + meta + `}`
 						case strings.HasPrefix(subj, "auth."):
-							return `{"result":null,` + meta + `}`
+							if mode == "autherr" {
+								return errBody
+							}
+							if mode == "err" {
+								return `{"result":null}`
+							}
+							return `{"result":null` + meta + `}`
+						case mode == "autherr":
+							return ""
+						case mode == "err" && strings.HasPrefix(subj, last):
+							return errBody
+						case mode == "err":
+							return ""
+						case strings.HasPrefix(subj, "access."):
+							return `{"result":{"get":true,"call":"*"}` + meta + `}`
+						case strings.HasPrefix(subj, "call."):
+							return `{"result":{"ok":true}` + meta + `}`
 						}
 						return ""
-					})
-					if h.Rec.Code != base.Rec.Code {
-						fail("meta-header-status", fmt.Sprintf("%s: status %d vs %d without meta", desc, h.Rec.Code, base.Rec.Code), desc)
 					}
-					ck := http.CanonicalHeaderKey(name)
-					if protected(name) {
-						if fmt.Sprint(h.Rec.Header()[ck]) != fmt.Sprint(base.Rec.Header()[ck]) {
-							fail("protected-header-replaced", fmt.Sprintf("%s: header %s is %v, without meta %v", desc, ck, h.Rec.Header()[ck], base.Rec.Header()[ck]), desc)
+				}
+				var base *mc.HTTPCall
+				for _, name := range append([]string{""}, hdrNames...) {
+					for _, multi := range []bool{false, true} {
+						name, multi := name, multi
+						if name == "" && multi {
+							continue
 						}
-					} else if strings.HasPrefix(ck, "Sec-Websocket-") {
-						// not applicable to plain HTTP responses
-					} else if len(h.Rec.Header()[ck]) == 0 || h.Rec.Header()[ck][0] != "evil" {
-						fail("meta-header-dropped", fmt.Sprintf("%s: header %s is %v", desc, ck, h.Rec.Header()[ck]), desc)
-					}
-					// Set-Cookie accumulates over the answering requests
-					wantCookies := []string{"c=ac"}
-					if auth {
-						wantCookies = []string{"c=au", "c=ac"}
-					}
-					if method == "POST" {
-						wantCookies = append(wantCookies, "c=ca")
-					}
-					got := append([]string(nil), h.Rec.Header()["Set-Cookie"]...)
-					sort.Strings(got)
-					sort.Strings(wantCookies)
-					if fmt.Sprint(got) != fmt.Sprint(wantCookies) {
-						fail("set-cookie", fmt.Sprintf("%s: Set-Cookie %v, expected %v", desc, got, wantCookies), desc)
+						desc := fmt.Sprintf("meta-header %s %s auth=%v %q multi=%v", mode, method, auth, name, multi)
+						// the base run (no meta) is needed by every part
+						if name == "" {
+							base, _ = runHTTP(cfg, rq, answer("", ""))
+							res.Evaluations--
+							res.Distinct--
+							continue
+						}
+						if !active(desc) {
+							continue
+						}
+						vals := `["evil"]`
+						if multi {
+							vals = `["evil","evil2"]`
+						}
+						h, _ := runHTTP(cfg, rq, answer(name, vals))
+						if h.Rec.Code != base.Rec.Code {
+							fail("meta-header-status", fmt.Sprintf("%s: status %d vs %d without meta", desc, h.Rec.Code, base.Rec.Code), desc)
+						}
+						ck := http.CanonicalHeaderKey(name)
+						if protected(name) {
+							if fmt.Sprint(hdrVals(h.Rec.Header(), ck)) != fmt.Sprint(hdrVals(base.Rec.Header(), ck)) {
+								fail("protected-header-replaced", fmt.Sprintf("%s: header %s is %v, without meta %v", desc, ck, hdrVals(h.Rec.Header(), ck), hdrVals(base.Rec.Header(), ck)), desc)
+							}
+						} else if strings.HasPrefix(ck, "Sec-Websocket-") {
+							// not applicable to plain HTTP responses
+						} else if v := hdrVals(h.Rec.Header(), ck); len(v) == 0 || v[0] != "evil" {
+							fail("meta-header-dropped", fmt.Sprintf("%s: header %s is %v", desc, ck, v), desc)
+						}
+						// Set-Cookie accumulates over the answering requests
+						var wantCookies []string
+						switch mode {
+						case "ok":
+							wantCookies = []string{"c=ac"}
+							if auth {
+								wantCookies = []string{"c=au", "c=ac"}
+							}
+							if method == "POST" {
+								wantCookies = append(wantCookies, "c=ca")
+							}
+						case "err":
+							wantCookies = []string{"c=ac"}
+							if method == "POST" {
+								wantCookies = []string{"c=ca"}
+							}
+						case "autherr":
+							wantCookies = []string{"c=au"}
+						}
+						got := append([]string(nil), hdrVals(h.Rec.Header(), "Set-Cookie")...)
+						sort.Strings(got)
+						sort.Strings(wantCookies)
+						if fmt.Sprint(got) != fmt.Sprint(wantCookies) {
+							fail("set-cookie", fmt.Sprintf("%s: Set-Cookie %v, expected %v", desc, got, wantCookies), desc)
+						}
 					}
 				}
 			}
@@ -331,6 +390,24 @@ func enumC17(tier string, part, parts, skip int, deadline time.Time, note func(i
 			fmt.Sprintf(`{"result":null,"meta":{"header":{%q:["evil"],"Set-Cookie":["c=1"]}}}`, name))
 		res.Evaluations++
 		res.Distinct++
+		// the same with the authentication answered by an error: the upgrade goes on, the meta still applies
+		code2, _, hdr2 := dialWSMeta(func(c *server.Config) { c.WSHeaderAuth = &hauth }, nil,
+			fmt.Sprintf(`{"error":{"code":"system.invalidParams","message":"no"},"meta":{"header":{%q:["evil"],"Set-Cookie":["c=1"]}}}`, name))
+		res.Evaluations++
+		res.Distinct++
+		if code2 == 101 {
+			for k, vs := range hdr2 {
+				if strings.EqualFold(k, "Sec-Websocket-Protocol") || strings.EqualFold(k, "Sec-Websocket-Extensions") {
+					for _, v := range vs {
+						if strings.Contains(v, "evil") {
+							fail("ws-meta-header", fmt.Sprintf("%s (auth error): %s contains the service supplied value", desc, k), desc)
+						}
+					}
+				}
+			}
+		} else {
+			fail("ws-meta-header", fmt.Sprintf("%s (auth error): handshake failed with status %d", desc, code2), desc)
+		}
 		if code != 101 {
 			fail("ws-meta-header", fmt.Sprintf("%s: handshake failed with status %d", desc, code), desc)
 			continue
